@@ -105,6 +105,22 @@ K("C03", "K03-should-all-ids", "c03_should_union_with_removed_all_scorer_matches
   functions=["boolean_weight::effective_should_scorer_for_union", "into_box_scorer", "AllScorer::{new,seek,advance}"], bounds="max_doc <= 1000, num_docs <= max_doc, 1..3 removed clauses")
 K("C03", "K03-should-identity", "c03_should_union_without_removed_all_scorer_is_identity", timeout=300,
   title="without a removed match-all clause the should scorer is passed through", functions=["boolean_weight::effective_should_scorer_for_union"], bounds="")
+K("C03", "K03-map-i64", "c03_i64_to_u64_definition", crate="tantivy-common", timeout=60, title="summary of M03-1: common::i64_to_u64(x) = (x as u64) ^ 2^63 and u64_to_i64 inverts it",
+  functions=["common::i64_to_u64", "common::u64_to_i64"], bounds="all i64")
+K("C03", "K03-map-columnar", "c03_monotonic_map_definitions", crate="tantivy-columnar", timeout=60, title="summary of M03-1: MonotonicallyMappableToU64 for i64 is that map, for u64 the identity",
+  functions=["<i64 as MonotonicallyMappableToU64>::{to_u64,from_u64}", "<u64 as MonotonicallyMappableToU64>::{to_u64,from_u64}"], bounds="all i64 / u64")
+K("C03", "K03-transform-bound", "c03_transform_bound_inner_model", crate="tantivy-common", timeout=120, title="assumption of M03-1: transform_bound_inner / BoundsRange::transform_inner / map_bound apply the closure to the inner value, Existing keeps the bound kind, NewBound replaces the bound, Unbounded stays; the two sides are independent",
+  functions=["common::bounds::{transform_bound_inner,map_bound}", "BoundsRange::transform_inner"], bounds="all bounds over i64, every closure outcome")
+K("C03", "K03-bound-to-range", "c03_bound_to_value_range_u64", timeout=120, title="bound_to_value_range: a column value within [min, max] lies in the returned inclusive range iff it satisfies both bounds; None only when nothing can match",
+  functions=["range_query_fastfield::bound_to_value_range::<u64>"], bounds="all bounds / min / max / values over u64")
+K("C03", "K03-f64-bounds-i64-lower", "c03_f64_bounds_on_i64_column_lower", timeout=300, title="f64 literal as lower bound on an i64 column: a value satisfies the transformed bound iff it satisfies the written one numerically",
+  functions=["range_query_fastfield::transform_from_f64_bounds::<i64>", "BoundsRange::transform_inner"], bounds="finite literals and column values of magnitude <= 2^53 (exact in f64)")
+K("C03", "K03-f64-bounds-i64-upper", "c03_f64_bounds_on_i64_column_upper", timeout=300, title="f64 literal as upper bound on an i64 column",
+  functions=["range_query_fastfield::transform_from_f64_bounds::<i64>"], bounds="magnitude <= 2^53")
+K("C03", "K03-f64-bounds-u64", "c03_f64_bounds_on_u64_column", timeout=300, title="f64 literals (both sides) on a u64 column",
+  functions=["range_query_fastfield::transform_from_f64_bounds::<u64>"], bounds="magnitude <= 2^53")
+K("C03", "K03-ip-range", "c03_bound_range_inclusive_ip", timeout=300, title="IP range bounds: an address lies in the scanned range iff it satisfies both bounds; no arithmetic overflow at the extreme addresses",
+  functions=["range_query_fastfield::bound_range_inclusive_ip"], bounds="all 128-bit addresses and bounds")
 K("C03", "K03-i64-order", "c03_i64_to_u64_order_roundtrip", crate="tantivy-common", timeout=60,
   title="i64 <-> u64 mapping is strictly order preserving and bijective",
   functions=["common::i64_to_u64", "common::u64_to_i64"], bounds="all 2^64 x 2^64 pairs", checks="full")
